@@ -29,8 +29,8 @@ CHECKS = {
    text="For every table over the common template fragment and every URL, one probe per method on a container with the OPTIONS filter and on a filter-less twin; every 405 Allow set and the OPTIONS filter's Allow / Access-Control-Allow-Methods must equal the measured routable set; OPTIONS invokes nothing; other methods are unaffected by the filter.",
    note="Recorded finding F10 (nested roots over-report) is matched by a narrow signature; any other mismatch is a violation."),
  "C18": dict(engine=E1, sec="§6 C18", technique="exhaustive differential enumeration: twin containers differing only in router",
-   text="Every table of the common fragment (literal roots incl. nested, literal or {v} route tokens, literals with regex metacharacters) times every request is dispatched on a CurlyRouter and a RouterJSR311 twin; status, route, parameters and Allow set must agree.",
-   note="Recorded finding F12 (non-canonical paths: Curly routes, JSR311 404) matched by a narrow signature."),
+   text="Every table of the common fragment (literal roots incl. nested, literal or {v} route tokens, literals with regex metacharacters and of different lengths, all methods through the per-method shortcuts, 32-route tables in 512 registration orders) times every request is dispatched on a CurlyRouter and a RouterJSR311 twin; status, route, parameters and Allow set must agree.",
+   note="Recorded findings F12 (non-canonical paths: Curly routes, JSR311 404) and F17 (crossing templates with literals of different length are ranked differently) matched by narrow signatures."),
  "C05": dict(engine="E1 enum on the instrumented build (cmd/vcheck/c05.go; map iteration order owned through engine/vsched.MapOrder)", sec="§6 C05", technique="bounded exhaustive enumeration of Produces lists x abstract Accept headers x all optional-whitespace renderings; reference ranking; enumeration of every map iteration order where the lookup reaches a map range",
    text="Every non-empty duplicate-free Produces sequence over {json, xml, custom vnd} x every Accept header of 0-2 abstract ranges (plus 3-range and 13-20-range families) x 64 whitespace renderings x DefaultResponseMimeType x registered-writer set: Content-Type equals the reference ranking (q descending, header order on ties, */* = first Produces entry) and the body decodes; all renderings agree; never 406 after the router admitted; every iteration order of the accessor map gives the same answer.",
    note="Instrumenter owns the map range in accessorAt; other map ranges are listed in the evidence. Recorded finding F14 (absent Accept + package default) matched by a narrow signature."),
@@ -47,7 +47,7 @@ CHECKS = {
    text="90 values (64-bit extremes, unicode, metacharacters, nested slices) x codec x Content-Type spelling x Content-Encoding x pretty x provider x target (struct / generic map with exact numbers) round-trip through WriteEntity and ReadEntity; every sequence of <= 3 (4) bodies over 13 well-formed/truncated/flipped/mis-declared/empty bodies: same result as when sent first on a fresh provider, broken => error, never a panic, provider ledger clean.",
    note="Recorded finding F13 (damaged gzip trailer not reported) matched narrowly: intact payload, correct value returned."),
  "C06": dict(engine=MIX, sec="§6 C06", technique="exhaustive enumeration of filter configurations and request sequences against a ten-line model; stateless exploration of all schedules of concurrent requests (preemption-bounded) with happens-before race detection",
-   text="E1: all 29k+ assignments of five filter behaviours to up to 2+2+2 filters x 5 request kinds, per-request event log (with the view each filter/handler has of the pair, attributes, context and writer) equal to the model. E2: every sequence of <= 3 (4) requests on one container. E3: 2 (3) concurrent requests on the instrumented real package under the controlled scheduler, yields at every filter entry/exit and handler, all schedules up to the preemption bound; supplementary free-running -race pass.",
+   text="E1: all 29k+ assignments of five filter behaviours to up to 2+2+2 filters (plus three at one level, the library's own CORS filter at each level, and configurations behind an application-provided RouteSelector) x 7-8 request kinds, per-request event log (with the view each filter/handler has of the pair, attributes, context and writer) equal to the model. E2: every sequence of <= 3 (4) requests on one container. E3: 2 (3) concurrent requests on the instrumented real package under the controlled scheduler, yields at every filter entry/exit and handler, all schedules up to the preemption bound; supplementary free-running -race pass.",
    note="Trusted: the ten-line chain model; E3 trusted base as for C12."),
  "C08": dict(engine=E1, sec="§6 C08", technique="exhaustive enumeration of CORS configurations x near-miss origins x requests, paired with a filter-less twin",
    text="Full product of allowed-domain lists, predicate, cookie/expose/max-age settings, filter position and router with origins derived from the entries by mutation operators (case, prefix, suffix, superstring, regex-dot, scheme, null, wildcard literals, absent) and 8 request shapes; any Access-Control-* header implies allowed(origin) (the statement's rule transcribed); Allow-Origin echoes the Origin once; credentials only if configured; otherwise the response equals the twin's in status, headers, body and event log.",
@@ -57,15 +57,15 @@ CHECKS = {
    note="Method-name case is not decided by the statement: either answer accepted."),
  "C11": dict(engine=E2, sec="§6 C11", technique="breadth-first explicit-state search over registration histories; differential oracle against a fresh container built from the abstract state",
    text="BFS over histories of Add/Remove/Route/RemoveRoute/Handle (depth 4 quick, 5 thorough) on root paths that collide in every way the mux registration can; each successor is the history replayed on a fresh real container; in every reached state ~90 probes through ServeHTTP and Dispatch must equal a container built directly from the abstract content; no operation may panic.",
-   note="States merged on abstract content (plus probe signature when deviating). Duplicate roots / duplicate Handle patterns are outside the quantifier."),
+   note="States merged on abstract content (plus probe signature when deviating). Duplicate roots are outside the quantifier; one duplicate Handle (rejected by net/http with a panic that the caller recovers, registering nothing) is part of the alphabet."),
  "C12": dict(engine=E3, sec="§6 C12", technique="stateless model checking of the real code under a controlled scheduler (iterative preemption bounding), vector-clock race detection, porcupine linearizability against the sequentially replayed container",
-   text="Serving threads against mutating threads (Add, Remove, Route, RemoveRoute, a condition that panics under the read lock), both routers x both entry points; every schedule up to the bound: no HB race on any struct field / package variable of the package, no panic, no deadlock, history linearizable w.r.t. registration states that existed during each request. Supplementary: same bodies free-running under -race on the uninstrumented package.",
-   note="Sequential consistency at synchronisation granularity; field-granular race detection (element-level only in the sampled -race pass); shim RWMutex models writer preference."),
+   text="Serving threads against mutating threads (Add, Remove, Route, RemoveRoute, a condition that panics under the read lock, the OPTIONS filter walking services and routes, a route function that itself adds a service, Removes beside a plain handler), both routers x both entry points; every schedule up to the bound: no HB race on any struct field / package variable / slice element / map of the package, no panic, no deadlock, history linearizable w.r.t. registration states that existed during each request, requests to untouched services answered as on the initial container. Supplementary: same bodies free-running under -race on the uninstrumented package.",
+   note="Sequential consistency at synchronisation granularity; race detection over struct fields, package variables, slice elements and whole maps of the package under test (standard-library internals only in the sampled -race pass); shim RWMutex models writer preference; package-level variables are restored before every execution. Recorded finding F18 (ServeHTTP: mux consulted before a Remove, service list after it) matched by a relaxed-linearizability signature."),
  "C13": dict(engine=E3, sec="§6 C13", technique="stateless model checking under a controlled scheduler with an instrumenting ledger provider; blocked-in-provider detection by enabledness, not time",
-   text="All schedules (bound 2 quick / 3 thorough) of 2-3 concurrent requests of kinds {gzip, deflate, routing error, recovered panic, double Close, failing writer, gzip request body in chunks, corrupt gzip body} for providers bounded(0/1/2) and sync.Pool (hand-out owned by the explorer) through both entry points: ledger clean (exclusive use, released exactly once), no thread ever disabled inside a provider operation, no deadlock, every response decodes to its own payload.",
+   text="All schedules (bound 2 quick / 3 thorough) of 2-3 concurrent requests of kinds {gzip, deflate, routing error, recovered panic, double Close, failing writer, gzip request body in chunks, corrupt gzip body} for providers bounded(0/1/2), bounded caches with unequal writer/reader capacities (2,1) (1,0) (1,2) and sync.Pool (hand-out owned by the explorer; provider construction runs under the scheduler as well) through both entry points: ledger clean (exclusive use, released exactly once), no thread ever disabled inside a provider operation, no deadlock, every response decodes to its own payload.",
    note="compress/* trusted; shim Pool over-approximates sync.Pool (any pooled object or a new one)."),
  "C19": dict(engine=MIX, sec="§6 C19", technique="explicit-state search over request histories (differential vs fresh container, trace on/off); schedule exploration of concurrent request pairs with HB race detection",
-   text="E2: 5 configurations x 2 routers x 2 entry points x trace off/on: every sequence over an 11-request set of length <= 3 (4) and the 1000-fold repetition of each request; last response (status, headers, decoded body with echoed parameters/attribute/selected route) equals the fresh-container response. E3: every pair (triples in thorough) concurrently, all schedules within the bound, same oracle, race detection; supplementary free-running -race pass.",
+   text="E2: 5 configurations x 2 routers x 2 entry points x trace off/on: every sequence of length <= 2 (3) over a 24-request set and of length 3 (4) over its 14-request core (every history starting from the same restored package-level state), and the 1000-fold repetition of each request; last response (status, headers verbatim, decoded body with echoed parameters/attribute/selected route) equals the fresh-container response. E3: every pair (triples in thorough) concurrently, all schedules within the bound, same oracle, race detection; supplementary free-running -race pass.",
    note="Differential; handlers additionally self-check that their own view does not change while they run (nested dispatch)."),
 }
 
